@@ -2,7 +2,7 @@
 # try_patch.sh <patch.diff> <tier> <PROP> [PROP...]
 # Applies a seeded change to /repo, runs the given checks, and always restores /repo.
 # Prints one line per check: "<PROP> rc=<rc> <first VIOLATION/INCONCLUSIVE line>".
-patch=$1; tier=$2; shift 2
+patch=$(realpath "$1"); tier=$2; shift 2
 cd "$(dirname "$0")/.."
 if ! git -C /repo diff --quiet; then echo "/repo has uncommitted changes; refusing" >&2; exit 2; fi
 git -C /repo apply "$patch" || { echo "patch does not apply" >&2; exit 2; }
